@@ -148,8 +148,15 @@ def build(case):
         elif kind == "delete":
             # remove one or two backbone atoms from `op[1]` random residues
             rs = [r for r in t.topology.residues if r.is_protein]
-            victims = {rs[i].index: rng.choice(["N", "CA", "C", "O"], size=int(rng.randint(1, 3)), replace=False)
+            # mostly patterns that remove the carbonyl completely or not at all; one in eight removes only C or only O
+            # (the follower's hydrogen is then built from memory outside the coordinate array -- reported under C14 -- and
+            # such trajectories are skipped here, see evaluate())
+            patterns = [["N"], ["CA"], ["C", "O"], ["N", "CA"], ["CA", "C", "O"], ["N", "CA", "C", "O"], ["N", "C", "O"], ["C"] if rng.rand() < 0.5 else ["O"]]
+            victims = {rs[i].index: patterns[int(rng.randint(len(patterns)))]
                        for i in rng.choice(len(rs), size=min(op[1], len(rs)), replace=False)}
+            for ri, pat in list(victims.items()):
+                if all(a.name in pat for a in t.topology.residue(ri).atoms):
+                    victims[ri] = ["N"]                       # never empty a residue completely
             plan = []
             for ch in t.topology.chains:
                 plan.append([("res", r, [a for a in r.atoms if not (r.index in victims and a.name in victims[r.index])]) for r in ch.residues])
@@ -265,6 +272,21 @@ def evaluate(case):
     if full.shape != (t.n_frames, n_res) or simp.shape != (t.n_frames, n_res):
         report("shape", "shape:one-code-per-residue-per-frame", f"shape {full.shape} / {simp.shape} for {t.n_frames} frames x {n_res} residues",
                list(full.shape), [t.n_frames, n_res])
+        return list(out.values()), stats
+    # a complete residue that follows a residue with exactly one of C / O: its amide hydrogen is computed from an
+    # out-of-bounds read (finding of C14), so kabsch_sander's answer is not a function of the frame: not comparable
+    res = list(t.topology.residues)
+    names = [{a.name for a in r.atoms} for r in res]
+    half = [d for d in range(1, n_res) if ("C" in names[d - 1]) != ("O" in names[d - 1]) and {"N", "CA", "C", "O"} <= names[d]]
+    if half:
+        stats["skipped_half_carbonyl"] = True
+        for f in range(t.n_frames):
+            for r in range(n_res):
+                m = str(full[f, r])
+                # (two separate calls may see different memory: the simplified image is not comparable either)
+                if (m == "NA") != (not {"N", "CA", "C", "O"} <= names[r]):
+                    report("dssp-code", "NA:incomplete-residue", f"frame {f} residue {r} ({res[r]}): code {m!r}, backbone atoms present: "
+                           f"{sorted(names[r] & {'N', 'CA', 'C', 'O'})}", m, "NA" if not {"N", "CA", "C", "O"} <= names[r] else "a DSSP code")
         return list(out.values()), stats
     inputs = frame_inputs(t)
     for f, inp in enumerate(inputs):
@@ -382,6 +404,14 @@ def run(tier, seed, hint):
                 stands_in_for="C15 rule engine (calculate_beta_sheets / calculate_alpha_helices: std::deque/std::map/sort outside the C front-end)")
     with ProcessPoolExecutor(max_workers=min(16, os.cpu_count() or 1)) as pool:
         results = list(pool.map(evaluate, cases, chunksize=1))
+    # context suffixes (":near-incomplete-residue", ":near-chain-boundary", ":multi-frame") single out defects that need that
+    # context; when the same rule category also fails without the context it is the same finding
+    def base(wc):
+        for suf in (":multi-frame", ":near-incomplete-residue", ":near-chain-boundary"):
+            wc = wc.replace(suf, "")
+        return wc
+
+    plain = {(clause, wc) for viol, _ in results for clause, wc, *_ in viol if wc == base(wc)}
     for case, (viol, stats) in zip(cases, results):
         if not viol:
             nt = None
@@ -390,7 +420,9 @@ def run(tier, seed, hint):
             chk.ok(nontrivial=nt, sample={"case": case, "stats": stats})
             continue
         for clause, wc, what, obs, exp in viol:
-            if wc.endswith(":multi-frame") and f"bcc:{clause}:{wc[:-len(':multi-frame')]}" in chk._fail_keys:
+            if (clause, base(wc)) in plain:
+                wc = base(wc)
+            elif wc.endswith(":multi-frame") and any(c == clause and w == wc[:-len(":multi-frame")] for v2, _ in results for c, w, *_ in v2):
                 wc = wc[:-len(":multi-frame")]
             chk.fail(clause, wc, what, case, observed=obs, expected=exp)
     return [chk]
@@ -402,7 +434,12 @@ def replay(payload):
     inp["ops"] = [tuple(o) for o in inp.get("ops", [])]
     viol, stats = evaluate(inp)
     key = payload.get("key", "")
-    want = [v for v in viol if not key or v[1] in key or v[1].replace(":multi-frame", "") in key] or viol
+    def base(wc):
+        for suf in (":multi-frame", ":near-incomplete-residue", ":near-chain-boundary"):
+            wc = wc.replace(suf, "")
+        return wc
+
+    want = [v for v in viol if not key or v[1] in key or base(v[1]) in key] or viol
     if want:
         v = want[0]
         return {"reproduced": True, "clause": v[0], "witness_class": v[1], "what": v[2], "observed": v[3], "expected": v[4], "stats": stats}
